@@ -290,6 +290,14 @@ def corr_body(ctx, case):
     ctx.close(auto, np.array([nx // 2, ny // 2], dtype=float), 1e-9, "correlation centroid of the reference with itself == array centre (N//2) for padding %d, shape (%d,%d)" % (p, ny, nx), scale=1.0, name="autocorrelation centre")
     got = run(img)
     ctx.close(got - auto, np.array([case["sx"], case["sy"]], dtype=float), 1e-9, "correlation centroid displaced by the image displacement", scale=1.0, name="correlation displacement")
+    # a live reference: one array that the caller refreshes in place between calls (running reference of an extended-scene sensor)
+    live = ref.copy()
+    a3 = (lambda a: a[None] if case["as3d"] else a)
+    first = c.correlation_centroid(a3(img.copy()), live, padding=p)[:, 0]
+    ctx.close(first, got, 1e-12, "correlation centroid with the reference passed as a reusable array == with a fresh copy", scale=1.0)
+    live[...] = img                                  # the reference now IS the image
+    second = c.correlation_centroid(a3(img.copy()), live, padding=p)[:, 0]
+    ctx.close(second, auto, 1e-9, "after the reference array was refreshed in place with the current image, the correlation centroid of that image is the array centre again", scale=1.0, name="refreshed reference")
 
 
 # ------------------------------------------------------------------ quad cell mirror
@@ -323,9 +331,18 @@ def quad_body(ctx, case):
 def counts_cases(draw):
     ny, nx = draw(st.integers(2, 14)), draw(st.integers(2, 14))
     n = draw(st.integers(0, 3))
+    if draw(st.integers(0, 11)) == 0:
+        # full detector frames: coordinates beyond 255 (and beyond what narrow index types hold)
+        ny, nx = draw(st.sampled_from([(240, 320), (300, 300), (288, 384), (2, 511), (257, 3), (360, 480), (520, 130)]))
+        n = draw(st.integers(0, 2))
+        seed = draw(st.integers(0, 2**32 - 1))
+        # saturated spots towards the far corner, in the narrow types cameras deliver
+        return {"ny": ny, "nx": nx, "n": n, "seed": seed, "peak": draw(st.sampled_from([120, 250])), "bg": draw(st.sampled_from([0, 1])), "far": draw(st.booleans()),
+                "dtype": draw(st.sampled_from(["uint8", "uint8", "int8", "uint16", "int16"])),
+                "t": draw(st.sampled_from([0.0, 0.0, 0.25])), "f": draw(st.floats(0.05, 0.9)), "padding": 1}
     seed = draw(st.integers(0, 2**32 - 1))
     return {"ny": ny, "nx": nx, "n": n, "seed": seed, "peak": draw(st.sampled_from([12, 80, 250])), "bg": draw(st.sampled_from([0, 1, 5])),
-            "dtype": draw(st.sampled_from(["uint8", "uint16", "uint32", "uint64", "int16", "int32", "int64"])),
+            "dtype": draw(st.sampled_from(["uint8", "uint16", "uint32", "uint64", "int8", "int16", "int32", "int64"])),
             "t": draw(st.sampled_from([0.0, 0.25, 0.5])), "f": draw(st.floats(0.05, 0.9)), "padding": draw(st.integers(1, 2))}
 
 
@@ -340,12 +357,14 @@ def counts_body(ctx, case):
     yy, xx = np.mgrid[0:ny, 0:nx]
     for fr in (img.reshape((-1, ny, nx))):
         cy, cx = rng.uniform(0, ny - 1), rng.uniform(0, nx - 1)
+        if case.get("far"):
+            cy, cx = rng.uniform(0.85 * (ny - 1), ny - 1), rng.uniform(0.85 * (nx - 1), nx - 1)
         fr += np.round(case["peak"] * np.exp(-((yy - cy) ** 2 + (xx - cx) ** 2) / 3.0)).astype(fr.dtype)
-    img = np.minimum(img, 255)
+    img = np.minimum(img, 127 if case["dtype"] == "int8" else 255)
     ref = img.astype(np.float64)
     typed = img.astype(case["dtype"])
     ctx.require(bool(np.array_equal(typed.astype(np.float64), ref)), "harness: counts not representable")
-    ctx.case(case, nontrivial=True, classes=[case["dtype"], "single" if n == 0 else "stack"])
+    ctx.case(case, nontrivial=True, classes=[case["dtype"], "single" if n == 0 else "stack"] + (["detector_size"] if max(ny, nx) > 255 else []))
     tol = 1e-12
     t, f = case["t"], case["f"]
     # (typed stack against the float64 stack of the same rank: the open finding about stacks vs frames is not involved)
